@@ -13,6 +13,7 @@ import (
 	"sort"
 	"strconv"
 	"strings"
+	"time"
 
 	"github.com/octohelm/gengo/pkg/gengo"
 	"github.com/octohelm/gengo/pkg/gengo/snippet"
@@ -228,11 +229,68 @@ func (g *recGen) GenerateType(c gengo.Context, named *types.Named) error {
 
 var mapValue = map[string]int{"zeta": 26, "alpha": 1, "mu": 12, "beta": 2, "omega": 24, "gamma": 3, "kappa": 10, "delta": 4, "pi": 16, "eta": 7}
 
+// keyedMap builds the map a declaration kind "mapvar:<key type>:<n>" renders: n entries (bool: at most 2, month: at most
+// 12) with keys of a NON-string kind, chosen by a fixed formula so that every process renders the same value.  The
+// dumper must emit the entries in one fixed order although reflect hands the keys out in Go's random map order.
+func keyedMap(kind string) any {
+	parts := strings.Split(kind, ":")
+	kt, n := "int", 4
+	if len(parts) > 1 {
+		kt = parts[1]
+	}
+	if len(parts) > 2 {
+		if k, err := strconv.Atoi(parts[2]); err == nil && k >= 0 && k <= 64 {
+			n = k
+		}
+	}
+	switch kt {
+	case "uint8":
+		m := map[uint8]bool{}
+		for i := 0; i < n; i++ {
+			m[uint8(7+i*53)] = i%3 != 0
+		}
+		return m
+	case "bool":
+		m := map[bool]string{}
+		for i := 0; i < n && i < 2; i++ {
+			m[i == 0] = []string{"yes", "no"}[i]
+		}
+		return m
+	case "month": // a named integer type of another package: the type literal goes through the import table
+		m := map[time.Month]string{}
+		for i := 0; i < n && i < 12; i++ {
+			k := time.Month(1 + (i*5)%12)
+			m[k] = k.String()
+		}
+		return m
+	case "rune":
+		m := map[rune]int{}
+		for i := 0; i < n; i++ {
+			m[rune('a'+(i*7)%26)] = i
+		}
+		return m
+	case "float64":
+		m := map[float64]string{}
+		for i := 0; i < n; i++ {
+			m[float64(i*i)-2.5] = fmt.Sprint("f", i)
+		}
+		return m
+	}
+	m := map[int]string{}
+	for i := 0; i < n; i++ {
+		k := (i*37)%101 - 20 // negative, one-digit and multi-digit keys
+		m[k] = fmt.Sprint("v", k)
+	}
+	return m
+}
+
 func renderDecl(c gengo.Context, d Decl) {
 	name := strings.TrimSuffix(d.Name, "!")
 	switch {
 	case d.Kind == "mapvar":
 		c.RenderT("var @name = @v\n\n", snippet.Args{"name": snippet.ID(name), "v": snippet.Value(mapValue)})
+	case strings.HasPrefix(d.Kind, "mapvar:"):
+		c.RenderT("var @name = @v\n\n", snippet.Args{"name": snippet.ID(name), "v": snippet.Value(keyedMap(d.Kind))})
 	case strings.HasPrefix(d.Kind, "id:"):
 		c.RenderT("var @name = @id\n\n", snippet.Args{"name": snippet.ID(name), "id": snippet.ID(d.Kind[3:])})
 	case d.Kind == "bad":
